@@ -2,7 +2,9 @@ package main
 
 import (
 	"fmt"
+	"go/token"
 	"go/types"
+	"os"
 	"sort"
 	"strings"
 
@@ -22,22 +24,28 @@ func (ex *Exec) call(fr *Frame, st *State, ci *ssa.Call) *Val {
 	if fr.isRoot && ex.quiet == 0 && fr.contract != nil && len(fr.contract.Asserts) > 0 {
 		name, k := callOrdinal(fr.fn, ci)
 		for _, a := range fr.contract.Asserts {
-			if a.Callee == name && a.K == k {
-				cj := ex.goalCtx(fr, st, ex.oldState, nil).conjuncts(a.Clause.Expr)
+			if a.Callee == name && (a.K == k || a.K == -1) {
+				// arg0, arg1, ... name the actual arguments of the anchored call (arg0 is the receiver of a
+				// statically dispatched method call)
+				aenv := map[string]*Val{}
+				for i, av := range args {
+					aenv[fmt.Sprintf("arg%d", i)] = av
+				}
+				cj := ex.goalCtx(fr, st, ex.oldState, aenv).conjuncts(a.Clause.Expr)
 				for j, x := range cj {
 					nm := fmt.Sprintf("assert[%s]@call[%s:%d]", clauseLabel(a.Clause, 0), name, k)
 					if len(cj) > 1 {
 						nm = fmt.Sprintf("assert[%s.%d]@call[%s:%d]", clauseLabel(a.Clause, 0), j+1, name, k)
 					}
 					if a.Split != nil {
-						sc := ex.evalBool(fr, a.Split, st, ex.oldState, nil)
+						sc := ex.evalBool(fr, a.Split, st, ex.oldState, aenv)
 						ex.oblige(st, "assert", nm+"/case1", Implies(sc, x.T), a.Clause.Tags, pos, "assert (case "+a.Split.String()+") "+x.Text)
 						ex.oblige(st, "assert", nm+"/case2", Implies(Not(sc), x.T), a.Clause.Tags, pos, "assert (case !("+a.Split.String()+")) "+x.Text)
 						continue
 					}
 					ex.oblige(st, "assert", nm, x.T, a.Clause.Tags, pos, "assert "+x.Text)
 				}
-				ex.assertsHit[fmt.Sprintf("%s:%d", name, k)] = true
+				ex.assertsHit[fmt.Sprintf("%s:%d", name, a.K)] = true
 			}
 		}
 	}
@@ -841,23 +849,45 @@ func calleeName(ci *ssa.Call) string {
 	return com.Value.Name()
 }
 
-// callOrdinal numbers the calls of the same callee name within a function in block order.
+// callOrdinal numbers the calls of the same callee name within a function in source order (the position of the
+// call's opening parenthesis), so that a contract anchor "call NAME K" survives refactorings that only change the
+// block layout of the SSA form (extracting the statements before a call into a helper, if/else <-> switch, ...).
+// Calls without a source position (synthesised by the SSA builder) come last, in block order.
 func callOrdinal(fn *ssa.Function, ci *ssa.Call) (string, int) {
 	name := calleeName(ci)
-	n := 0
+	type ent struct {
+		c   *ssa.Call
+		pos token.Pos
+		seq int
+	}
+	var all []ent
 	for _, b := range fn.Blocks {
 		for _, in := range b.Instrs {
 			if c, ok := in.(*ssa.Call); ok && calleeName(c) == name {
-				n++
-				if c == ci {
-					return name, n
-				}
+				all = append(all, ent{c, c.Pos(), len(all)})
 			}
+		}
+	}
+	sort.SliceStable(all, func(i, j int) bool {
+		pi, pj := all[i].pos, all[j].pos
+		if pi.IsValid() != pj.IsValid() {
+			return pi.IsValid()
+		}
+		if pi != pj {
+			return pi < pj
+		}
+		return all[i].seq < all[j].seq
+	})
+	for k, e := range all {
+		if e.c == ci {
+			if os.Getenv("GOCV_ORDMAP") != "" && e.seq != k {
+				fmt.Fprintf(os.Stderr, "ORDMAP %s call %s block-order %d source-order %d\n", fn.String(), name, e.seq+1, k+1)
+			}
+			return name, k + 1
 		}
 	}
 	return name, 0
 }
-
 
 func hasTag(tags []string, t string) bool {
 	for _, x := range tags {
